@@ -427,7 +427,8 @@ def pristine_read(r):
         return {"err": err_code(exc), "exc": repr(exc)[:200],
                 "exc_class": "%s.%s" % (type(exc).__module__, type(exc).__qualname__)}
     t = S.tree(res)
-    return {"err": None, "tree": t, "digest": S.digest(t)}
+    # "tree" (what the model is given as the result of this read) carries the sharing markers; "digest" is the plain one
+    return {"err": None, "tree": S.mark_span_sharing(t, res), "digest": S.digest(t)}
 
 
 def main():
